@@ -519,3 +519,27 @@ Proof.
 Qed.
 
 End PathProofs.
+
+(* ------------------------------------------------------------------ fixed-width serialisation (ser256 / ser32) *)
+From Coq.Strings Require Import Byte.
+(* The HMAC input of a hardened child is 0x00 || ser256(k) || ser32(i): 37 bytes whatever k is, and the 32 key bytes
+   read back as k - a key that starts with zero bytes keeps them (BIP32 test vector 3). *)
+Lemma hardened_data_fixed_width_lemma : forall k i,
+  0 <= k < 2 ^ 256 ->
+  length (x00 :: be_bytes 32 k ++ be_bytes 4 i) = 37%nat /\
+  length (be_bytes 32 k) = 32%nat /\ of_be (be_bytes 32 k) = k.
+Proof.
+  intros k i Hk. split; [|split].
+  - cbn [length]. rewrite app_length, !be_bytes_length. reflexivity.
+  - apply be_bytes_length.
+  - apply of_be_be_bytes_small. change (256 ^ Z.of_nat 32) with (2 ^ 256). exact Hk.
+Qed.
+
+(* two keys are serialised alike only when they are equal: stripping leading zero bytes would confuse k with
+   another parent key (k * 256^j) *)
+Lemma ser256_injective_lemma : forall a b,
+  0 <= a < 2 ^ 256 -> 0 <= b < 2 ^ 256 -> be_bytes 32 a = be_bytes 32 b -> a = b.
+Proof.
+  intros a b Ha Hb H. apply (f_equal of_be) in H.
+  rewrite !of_be_be_bytes_small in H by (change (256 ^ Z.of_nat 32) with (2 ^ 256); assumption). exact H.
+Qed.
